@@ -310,6 +310,55 @@ def ob_symbol_history(tier="quick"):
     return res
 
 
+def ob_hash_collision(tier="quick"):
+    """the abstraction of a term is that term's, also for two different live terms with the SAME 32-bit Z3 hash (Z3_get_ast_hash collides
+    within a few thousand terms; the abstraction cache must not be keyed by it): colliding pairs x + i / x + j are found by search, both are
+    abstracted (the first result kept alive) and each must convert back to an equivalent of ITSELF"""
+    import hashlib, os
+    src = open(os.path.join(loader.REPO, REL), "rb").read()
+    loader.SOURCES[REL] = hashlib.sha256(src).hexdigest()
+    bz, ctx = _ctx()
+    res = paths.Result()
+    x = z3.BitVec("kf_coll_x", 32, ctx)
+    seen, pairs = {}, []
+    for i in range(300000):
+        t = x + i
+        h = z3.Z3_get_ast_hash(ctx.ref(), t.as_ast())
+        if h in seen and seen[h] != i:
+            pairs.append((seen[h], i))
+            if len(pairs) == 3:
+                break
+        seen.setdefault(h, i)
+    if not pairs:
+        res.status, res.reason = "undecided", "no two candidate terms share a Z3 hash"
+        return res
+    for (i, j) in pairs:
+        for order in ((i, j), (j, i)):
+            res.paths += 1
+            res.vcs += 1
+            bz.downsize()
+            t1, t2 = x + order[0], x + order[1]
+            try:
+                a1 = bz._abstract(t1)
+                a2 = bz._abstract(t2)
+                back = bz.convert(a2)
+            except Exception as e:  # noqa
+                f = paths.Failure("z3rt.hash-collision/raises", "ensures", {"i": order[0], "j": order[1]}, f"{type(e).__name__}: {e}", [])
+                f.replay = {"reproduced": True, "text": f.detail}
+                res.failures.append(f)
+                continue
+            verdict, info = _equiv(t2, back, ctx, 20000)
+            if verdict not in ("ok", "unknown"):
+                f = paths.Failure("z3rt.hash-collision/own-term", "ensures", {"i": order[0], "j": order[1]},
+                                  f"{t1} and {t2} share their Z3 hash; after abstracting the first (-> {a1!r}) the second abstracts to {a2!r}, which converts to {back}", [])
+                f.replay = {"reproduced": True, "text": f.detail}
+                res.failures.append(f)
+    if res.failures:
+        res.status = "violated"
+    res.samples = [{"colliding_pairs": pairs}]
+    return res
+
+
 def ob_totality(tier="quick"):
     """every operator the translation can emit has op_map/op_type_map entries for the kind it produces, also
     after z3.simplify (the kinds actually seen are harvested from a fixed family of translated expressions)"""
